@@ -180,3 +180,41 @@ example : missingDeps exD (fun c => if c = 1 ∨ c = 4 then some (.atom 0) else 
 example : missingDeps exD (fun c => if c = 1 ∨ c = 4 ∨ c = 2 then some (.atom 0) else none) = none := by decide
 
 end IV.Dr
+
+namespace IV.Dr
+
+/-! ### from decorator arguments to the declaration -/
+
+/-- class-level requirements come first, then the positional arguments (the deprecated `requires=`
+keyword only when there is no positional argument), then class-level optional ones, then `optional=` -/
+theorem derive_deps (r : RawDecl) (hk : ∀ coe, r.kind ≠ .parser coe) :
+    (derive r).deps =
+      (r.clsRequires ++ (if r.positional.isEmpty then r.kwRequires else r.positional)).flatMap
+        (fun | .one c => [c] | .group cs => cs) ++ (r.clsOptional ++ r.kwOptional.toList) := by
+  unfold derive
+  cases hkind : r.kind with
+  | parser coe => exact absurd hkind (hk coe)
+  | plain | plugin | datasource | rule => rfl
+
+/-- positional arguments win over the `requires=` keyword, which is then ignored entirely -/
+theorem positional_overrides_keyword (r : RawDecl) (hp : r.positional ≠ []) (kw : List Item) :
+    derive { r with kwRequires := kw } = derive r := by
+  unfold derive
+  cases r.kind <;> simp [hp]
+
+/-- a single component given as `optional=` behaves like the one-element list -/
+theorem optional_single_is_list (r : RawDecl) (c : Comp) :
+    derive { r with kwOptional := .single c } = derive { r with kwOptional := .many [c] } := by
+  unfold derive
+  cases r.kind <;> rfl
+
+/-- a parser's declaration ignores both keywords -/
+theorem parser_ignores_keywords (r : RawDecl) (coe : Bool) (hk : r.kind = .parser coe) (kw : List Item) (o : OptArg) :
+    derive { r with kwRequires := kw, kwOptional := o } = derive r := by
+  unfold derive
+  simp [hk]
+
+example : (derive ⟨.rule, [.one 9], [8], [.one 1, .group [2, 3]], [.one 7], .single 5⟩).deps = [9, 1, 2, 3, 8, 5] := by decide
+example : (derive ⟨.plugin, [], [], [], [.one 7, .one 6], .many [5, 4]⟩).deps = [7, 6, 5, 4] := by decide
+
+end IV.Dr
